@@ -325,7 +325,7 @@ def obligations(tier):
     obls.append(Obl("token822_parse", "tok.c",
         progs=[Prog("token822.c", sub=[(r"^GEN_ALLOC_(readyplus|ready|append)\(token822_alloc.*$", "", 3)])],
         grid=[{"N": n} for n in ((0, 1, 2, 3) if quick else (0, 1, 2, 3, 4, 5))],
-        unwind_default=lambda p: p["N"] + 2, timeout=1800 if not quick else 600,
+        unwind_default=lambda p: p["N"] + 2, timeout=3600 if not quick else 600,
         functions=["token822.c:token822_parse", "token822.c:atomok", "token822.c:atomcheck"],
         stubs=["token822_ready / stralloc_ready: objects of exactly the size asked for (the GEN_ALLOC instances are removed from the copy)"],
         assumes=["input of exactly N bytes (grid), any bytes, exactly-sized block"],
